@@ -180,6 +180,118 @@ func init() {
 			})
 		}
 
+		// ---- line_parser.go: the fail/skip counters of lineParser.parse ---------------------------------------
+		pf := parseFile("pkg/scanner/parser/line_parser.go")
+		intLit := func(e ast.Expr) (int, bool) {
+			bl, ok := e.(*ast.BasicLit)
+			if !ok || bl.Kind != token.INT {
+				return 0, false
+			}
+			v, err := strconv.Atoi(bl.Value)
+			return v, err == nil
+		}
+		// is `lp.<field> = <rhs>` (rhs: int literal value, or identifier name) assigned somewhere below n
+		assigns := func(n ast.Node, field string) (found bool, val int, ident string) {
+			if n == nil {
+				return
+			}
+			ast.Inspect(n, func(m ast.Node) bool {
+				as, ok := m.(*ast.AssignStmt)
+				if !ok || len(as.Lhs) != 1 || len(as.Rhs) != 1 || as.Tok != token.ASSIGN {
+					return true
+				}
+				se, ok := as.Lhs[0].(*ast.SelectorExpr)
+				if !ok || se.Sel.Name != field {
+					return true
+				}
+				found = true
+				if v, ok := intLit(as.Rhs[0]); ok {
+					val = v
+				}
+				if id, ok := as.Rhs[0].(*ast.Ident); ok {
+					ident = id.Name
+				}
+				return true
+			})
+			return
+		}
+		isFtNotNil := func(e ast.Expr) bool {
+			be, ok := e.(*ast.BinaryExpr)
+			if !ok || be.Op != token.NEQ {
+				return false
+			}
+			x, ok1 := be.X.(*ast.Ident)
+			y, ok2 := be.Y.(*ast.Ident)
+			return ok1 && ok2 && x.Name == "ft" && y.Name == "nil"
+		}
+		maxFail, maxSkip, maxSkipDetect, skipCap := 0, 0, 0, 0
+		resetFast, resetDetect, lastFast, lastDetect := false, false, false, false
+		if fd := funcDecl(pf, "", "NewLineParser"); fd == nil {
+			problem("parser.NewLineParser not found")
+		} else {
+			_, maxFail, _ = assigns(fd.Body, "maxFailCnt")
+			_, maxSkip, _ = assigns(fd.Body, "maxSkipCnt")
+		}
+		if fd := funcDecl(pf, "lineParser", "parse"); fd == nil {
+			problem("parser.lineParser.parse not found")
+		} else {
+			var fast, detect ast.Node
+			for _, st := range fd.Body.List {
+				switch x := st.(type) {
+				case *ast.IfStmt:
+					if fast == nil && isFtNotNil(x.Cond) {
+						fast = x.Body
+					}
+				case *ast.SwitchStmt:
+					for _, c := range x.Body.List {
+						cc := c.(*ast.CaseClause)
+						if len(cc.List) == 1 {
+							if id, ok := cc.List[0].(*ast.Ident); ok && id.Name == "parsing" {
+								for _, s2 := range cc.Body {
+									if is, ok := s2.(*ast.IfStmt); ok && isFtNotNil(is.Cond) {
+										detect = is.Body
+									}
+								}
+							}
+						}
+					}
+					ast.Inspect(x, func(m ast.Node) bool {
+						if be, ok := m.(*ast.BinaryExpr); ok && be.Op == token.LSS {
+							if se, ok := be.X.(*ast.SelectorExpr); ok && se.Sel.Name == "maxSkipCnt" {
+								if v, ok := intLit(be.Y); ok {
+									skipCap = v
+								}
+							}
+						}
+						return true
+					})
+				}
+			}
+			if fast == nil || detect == nil {
+				problem("parser.lineParser.parse: fast path / detection branch not recognised")
+			}
+			resetFast, _, _ = assigns(fast, "failSkipCnt")
+			resetDetect, _, _ = assigns(detect, "failSkipCnt")
+			lastFast, _, _ = assigns(fast, "lastDate")
+			lastDetect, _, _ = assigns(detect, "lastDate")
+			_, maxSkipDetect, _ = assigns(detect, "maxSkipCnt")
+		}
+		if maxFail == 0 || maxSkip == 0 || skipCap == 0 {
+			problem("parser.lineParser: maxFailCnt / maxSkipCnt / skip cap not found")
+		}
+		l.p("/-- lineParser: failures before `skipping`, lines skipped at first, the value `maxSkipCnt` is set back to when a format is")
+		l.p("detected (0 = not set back), and the bound below which the skip length doubles -/")
+		l.p("def lpMaxFailCnt : Nat := %d", maxFail)
+		l.p("def lpMaxSkipCnt : Nat := %d", maxSkip)
+		l.p("def lpMaxSkipCntOnDetect : Nat := %d", maxSkipDetect)
+		l.p("def lpSkipCap : Nat := %d", skipCap)
+		l.p("/-- `lp.failSkipCnt = 0` / `lp.lastDate = tm` on the fast path (remembered format parsed the line) and in the branch")
+		l.p("where the full parser detected a format -/")
+		l.p("def lpResetsCountOnFastPath : Bool := %s", leanBool(resetFast))
+		l.p("def lpResetsCountOnDetect : Bool := %s", leanBool(resetDetect))
+		l.p("def lpSetsLastDateOnFastPath : Bool := %s", leanBool(lastFast))
+		l.p("def lpSetsLastDateOnDetect : Bool := %s", leanBool(lastDetect))
+		l.p("")
 		l.p("/-- `terms` of date.go in table order: (format term, Go layout, regular expression), as bytes -/")
 		l.p("def terms : List (List UInt8 × List UInt8 × List UInt8) := [")
 		for i, t := range terms {
